@@ -528,3 +528,36 @@ def i9(facts, tier):
                  f"{f['id']}: every Ok(..) reports the whole buffer as written" if not bad else
                  f"{f['id']}: returns Ok({bad[1]}) with no guard that the second operand is non-zero: when there is no room left a non-empty buffer "
                  f"gets Ok(0), which `write_all` reports as a WriteZero error (the call fails for the payload size that fills the buffer exactly)")
+
+
+# ---------------------------------------------------------------------------------------------
+# I10: two short-circuiting searches share one iterator
+
+SEARCHES = ("::any", "::all", "::find", "::find_map", "::position", "::rposition")
+
+
+@rule("I10", ["C13", "C16", "C01"], floor=0, doc="decoders do not run two short-circuiting searches (any / all / find / position) on ONE iterator value: "
+      "the first search consumes everything up to its hit - or everything, when there is none - so what the second one reports "
+      "depends on the order of the items (an independent flag is lost when the other flag is absent)")
+def i10(facts, tier):
+    n = 0
+    for f in list(facts.fns_of_crate("savefile")) + list(facts.fns_of_crate("savefile_abi")):
+        body = f.get("body")
+        if not body or "quickcheck" in f["id"]:
+            continue
+        uses = {}
+        for x in walk(body):
+            if x.get("k") == "Call" and (callee(x) or "").endswith(SEARCHES) and x.get("args"):
+                r = peel(x["args"][0])
+                if r.get("k") == "Var":
+                    uses.setdefault(r["v"], []).append(x)
+        for v, xs in uses.items():
+            if len(xs) < 2:
+                continue
+            n += 1
+            yield ob(["C13", "C16", "C01"], "I10", f"{f['id']}:{v.split('#')[0]}", "violation", where(f, xs[1]),
+                     f"{f['id']}: `{v.split('#')[0]}` is searched {len(xs)} times ({', '.join((callee(x) or '').rsplit('::', 1)[-1] for x in xs)}) although "
+                     f"each search consumes the iterator up to its hit, or completely when there is none: the later search sees only the rest, so "
+                     f"a property that is present is reported absent whenever the earlier one is absent")
+    if n == 0:
+        yield ob(["C13", "C16", "C01"], "I10", "no-shared-iterator-search", "pass", "", "no iterator value is searched twice", nontrivial=False)
